@@ -260,6 +260,16 @@ add("FX-36", "8054ebc", "C02", "wf.rel_empty", "GlencoeReader.transform",
     "relations of their own; the group had no members left)",
     put_plan("glencoe", _gl2, {"kind": "any"}, "C02"))
 
+_js = json.dumps({"features": {"name": "Root", "abstract": False, "relations": [
+    {"type": "OPTIONAL", "children": [{"name": "A", "abstract": False}]}]},
+    "constraints": [{"name": "c0", "expr": "A", "ast": {"type": "FEATURE", "operands": [
+        {"type": "FEATURE", "operands": ["A"]}, {"type": "FEATURE", "operands": ["Root"]}]}}]})
+add("FX-37", "bdb4a54", "C02", "wf.traverse", "JSONReader.transform",
+    "a JSON document in which a constraint node of type FEATURE carries an object instead of a "
+    "feature name as its operand was accepted; the returned constraint held that object as a term "
+    "and get_features() raised AttributeError",
+    put_plan("json", _js, {"kind": "any"}, "C02"))
+
 
 def main():
     os.makedirs(os.path.join(orch.VERIF, "known"), exist_ok=True)
